@@ -84,7 +84,7 @@ def gen(src, consts):
             and ast.unparse(eb[1]) == 'self._exceptions.append(AMQPConnectionError(why))' and isinstance(eb[2], ast.Return)):
         raise ExtractError('write_to_socket: fatal branch changed: %r' % [ast.unparse(x)[:40] for x in eb])
     tests = [ast.unparse(n.test) for n in ast.walk(inner[0]) if isinstance(n, ast.If)]
-    if 'not self.socket' not in tests or 'bytes_written == 0' not in tests:
+    if ('not self.socket' not in tests and 'not sock' not in tests) or 'bytes_written == 0' not in tests:
         raise ExtractError('write_to_socket: closed-socket / zero-write tests changed')
     # ---- pollers ----------------------------------------------------------------------------------------------
     for cls in ('Poller', 'SelectPoller'):
